@@ -181,10 +181,16 @@ func (m *Machine) ndStub(name string, args []Value) Value {
 		m.hashInjective = true
 		for i := 0; i < len(m.hashLog); i++ {
 			for j := i + 1; j < len(m.hashLog); j++ {
-				m.assertHashInjective(m.hashLog[i], m.hashLog[j])
+				if m.hashLog[i].fn == "sha256" && m.hashLog[j].fn == "sha256" {
+					m.assertHashInjective(m.hashLog[i], m.hashLog[j])
+				}
 			}
 		}
 		return nil
+	case "X25519Key":
+		priv := m.newDrawCells(32, "bytes")
+		pub := m.x25519Pub(priv)
+		return Tuple{m.byteSlice(priv), m.byteSlice(pub)}
 	case "Freeze":
 		m.frozen = m.nodeSeq
 		return nil
